@@ -279,3 +279,27 @@ def ci_squash_merge_of_two_commits_on_moved_base():
         return _final(s)
     finally:
         s.destroy()
+
+
+def cherry_pick_range_first_commit_must_not_list_later_files():
+    """D64: `git cherry-pick C1 C2` where C1 adds S1's line at the bottom of f.txt and C2 adds two lines at the top of f.txt plus
+    S1's three lines in g.txt, onto a branch that already has the two top lines (so the shortcut declines: f.txt differs for the
+    first pair). The full replay started from the state of C2 and wrote, for the FIRST new commit, a note that also listed g.txt
+    lines 2-4 - lines that commit does not contain (a person's lines / past the end of the file)."""
+    s = _mk("d64", files=2)
+    try:
+        f0 = [s.line("human") for _ in range(6)]; g0 = [s.line("human") for _ in range(3)]
+        s.human_write("f.txt", f0); s.human_write("g.txt", g0); s.commit_all("init")
+        s.g("checkout", "-q", "-b", "src")
+        f1 = f0 + [s.line("S1")]
+        s.ai_write("S1", "f.txt", f1); s.commit_all("C1: agent line at the bottom of f")
+        top = [s.line("human"), s.line("human")]
+        s.human_write("f.txt", top + f1)
+        s.ai_write("S1", "g.txt", g0[:1] + [s.line("S1"), s.line("S1"), s.line("S1")] + g0[1:])
+        s.commit_all("C2: two lines at the top of f, agent lines in g")
+        s.g("checkout", "-q", "main")
+        s.human_write("f.txt", top + f0); s.commit_all("upstream already has the two top lines")
+        s.g("cherry-pick", "src~2..src")
+        return _final(s)
+    finally:
+        s.destroy()
